@@ -34,19 +34,22 @@ struct Sim {
   ~Sim() { destroy(); }
   void destroy() {
     if (v.obj) ad::sim_destroy(v, placed);
+    v = ad::SimView();
     if (buf) { free(buf); buf = nullptr; }
   }
   // fill < 0: heap object, memory explicitly zeroed by the harness afterwards (zeroMem)
+  // fill >= 0: the object is constructed by placement-new into a buffer pre-filled with that byte (buffer reused between calls)
   void create(int fill = -1, size_t maxCycles = 0, bool zeroMem = true) {
-    destroy();
+    if (v.obj) { ad::sim_destroy(v, placed); v = ad::SimView(); }
     ib.reset(""); in.clear(); ob.data.clear();
     if (fill >= 0) {
       size_t n = ad::sim_sizeof();
-      buf = aligned_alloc(64, (n + 63) / 64 * 64);
+      if (!buf) buf = aligned_alloc(64, (n + 63) / 64 * 64);
       memset(buf, fill, n);
       placed = true;
       v = ad::sim_create(buf, in, out, maxCycles);
     } else {
+      if (buf) { free(buf); buf = nullptr; }
       placed = false;
       v = ad::sim_create(nullptr, in, out, maxCycles);
       if (zeroMem) { memset(v.mem, 0, v.memWords * 4); *v.exitCode = 0; }
